@@ -833,7 +833,18 @@ class Evaluator:
 
     def ev_adt(self, e, st, depth, body):
         if e["has_base"]:
-            raise Unsupported("struct update syntax", e.get("sp"))
+            # `S { f: x, ..base }`: the fields not written out are read from the base value
+            if e.get("base") is None or not e.get("all_fields") or e["is_enum"]:
+                raise Unsupported("struct update syntax", e.get("sp"))
+            sink = []
+            given = [f["name"] for f in e["fields"]]
+            for (g, ts, env) in self.product([f["e"] for f in e["fields"]] + [e["base"]], st, depth, body, sink):
+                basev = ts[-1]
+                vals = dict(zip(given, ts[:-1]))
+                t = ("adt", e["path"], "", tuple((n, vals[n] if n in vals else self.field(basev, i, n)) for i, n in enumerate(e["all_fields"])))
+                yield (g, "val", t, env)
+            yield from sink
+            return
         sink = []
         for (g, ts, env) in self.product([f["e"] for f in e["fields"]], st, depth, body, sink):
             if e["path"] == "core::option::Option":
